@@ -111,4 +111,9 @@ func runJobs(id string, jobs []Job, all bool) {
 	}
 	res.Info["jobs_total"] = len(jobs)
 	res.Write(env)
+	if env.Out != "" {
+		// harnesses running inside a synctest bubble leave blocked goroutines of the system under test
+		// behind; the bubble would panic on exit.  The result is on disk: end the worker here.
+		os.Exit(0)
+	}
 }
